@@ -128,6 +128,11 @@ pub fn main(table: &[Entry]) {
     // keep panics quiet: they are caught and reported as data
     std::panic::set_hook(Box::new(|_| {}));
 
+    if mode == "bare" {
+        bare(table, m.get("inputs").expect("--inputs"), config);
+        return;
+    }
+
     let corpus: Value = serde_json::from_str(&std::fs::read_to_string(corpus_path).expect("read corpus")).expect("parse corpus");
     let mut specs: HashMap<String, (Def, GraphData)> = HashMap::new();
     for d in corpus["defs"].as_array().unwrap() {
@@ -144,8 +149,10 @@ pub fn main(table: &[Entry]) {
     let mut inconclusive: Vec<Value> = vec![];
     let (mut cases, mut items_seen, mut err_items, mut runs_with_err, mut runs_with_skip, mut multibyte_runs, mut dropped, mut traced) = (0usize, 0usize, 0usize, 0usize, 0usize, 0usize, 0usize, 0usize);
     let (mut gd, mut mem, mut rnd, mut swp) = (0usize, 0usize, 0usize, 0usize);
+    let (mut cb_invocations, mut runs_with_cb, mut cb_bumps) = (0usize, 0usize, 0usize);
     let mut distinct: std::collections::HashSet<u64> = Default::default();
     let mut defs_run = 0usize;
+    let mut dump = String::new();
 
     for e in table {
         if let Some(o) = &only {
@@ -189,6 +196,11 @@ pub fn main(table: &[Entry]) {
                     obs.extend_from_slice(&oh.to_le_bytes());
                     distinct.insert(fnv_mix(oh, fnv_mix(name_hash, fnv1a(input))));
                     items_seen += out.items.len();
+                    cb_invocations += out.cb_log.len();
+                    cb_bumps += out.cb_log.iter().filter(|c| c.bumped > 0).count();
+                    if !out.cb_log.is_empty() {
+                        runs_with_cb += 1;
+                    }
                     let ne = out.items.iter().filter(|i| !i.ok).count();
                     err_items += ne;
                     if ne > 0 {
@@ -377,6 +389,19 @@ pub fn main(table: &[Entry]) {
                     }
                 }
             }
+            "dump" => {
+                // write a sample of this definition's inputs for oracle-free runs (Miri)
+                let limit: usize = m.get("limit").map(|s| s.parse().unwrap()).unwrap_or(40);
+                let step = (set.inputs.len() / limit.max(1)).max(1);
+                let mut n = 0;
+                for (ci, input) in set.inputs.iter().enumerate() {
+                    if ci % step == 0 && n < limit {
+                        dump.push_str(&format!("{}\t{}\n", e.name, hex(input)));
+                        n += 1;
+                    }
+                }
+                cases += n;
+            }
             other => panic!("unknown mode {other}"),
         }
     }
@@ -386,11 +411,14 @@ pub fn main(table: &[Entry]) {
         "definitions": defs_run, "cases": cases, "distinct_cases": distinct.len(), "items": items_seen, "error_items": err_items,
         "runs_with_error": runs_with_err, "runs_with_skip": runs_with_skip, "runs_with_multibyte": multibyte_runs,
         "inputs": {"graph_directed": gd, "members_and_mutations": mem, "alphabet_random": rnd, "length_sweeps": swp, "dropped_invalid_utf8": dropped},
-        "traced_runs": traced,
+        "traced_runs": traced, "callback_invocations": cb_invocations, "runs_with_callbacks": runs_with_cb, "callback_bumps": cb_bumps,
         "read_trace": {"read_events": read_stats.events, "attempts": read_stats.attempts, "restarts": read_stats.restarts, "max_reads_per_examined_byte": read_stats.max_ratio},
         "partial": {"splits": pstats.splits, "stopped_mid_stream": pstats.stopped_mid_stream, "determinedness_inconclusive": pstats.inconclusive, "chunk_schedules": pstats.chunk_schedules},
         "violation_count": acc.total_violations, "violations": acc.violations, "inconclusive": inconclusive, "samples": samples,
     });
+    if mode == "dump" {
+        std::fs::write(m.get("inputs").expect("--inputs"), &dump).expect("write inputs");
+    }
     let text = serde_json::to_string(&result).unwrap();
     match out_path {
         Some(p) => std::fs::write(p, text).expect("write result"),
@@ -468,4 +496,45 @@ fn chunk_schedule(e: &Entry, ctx: &DefCtx, input: &[u8], full: &RunOut, rng: &mu
     if !same {
         vs.push(monitor::v("C07", "chunked-stream-differs", format!("schedule {schedule:?}: chunked feeding gives {} items, one-shot lexing {} (first items chunked {:?} / one-shot {:?})", got.len(), full.items.len(), got.iter().take(6).collect::<Vec<_>>(), full.items.iter().take(6).collect::<Vec<_>>())));
     }
+}
+
+/// Oracle-free run over pre-computed inputs (used under Miri): only what the typed runner itself
+/// checks (span validity and boundaries before slicing, slice/remainder equality, termination by
+/// read budget, None forever after None, final position).
+fn bare(table: &[Entry], inputs_path: &str, config: &str) {
+    let text = std::fs::read_to_string(inputs_path).expect("read inputs");
+    let (mut cases, mut items, mut viol) = (0usize, 0usize, 0usize);
+    for line in text.lines() {
+        let Some((name, hexs)) = line.split_once('\t') else { continue };
+        let Some(e) = table.iter().find(|e| e.name == name) else { continue };
+        let input = unhex(hexs);
+        for partial in [false, true] {
+            let opts = Opts { partial, trace: false, budget: true, max_items: input.len() + 3 };
+            let out = run_entry(e, &input, cases % 3, &opts);
+            cases += 1;
+            items += out.items.len();
+            let mut bad: Vec<String> = out.problems.iter().map(|(p, m)| format!("{p}: {m}")).collect();
+            if let Some(p) = &out.panicked {
+                bad.push(format!("C05: panic {p}"));
+            }
+            if !out.ended {
+                bad.push("C03: no None".into());
+            }
+            if !partial && out.ended && out.end_span != (input.len(), input.len()) {
+                bad.push(format!("C03: end span {:?}", out.end_span));
+            }
+            let mut prev = 0;
+            for it in &out.items {
+                if it.start >= it.end || it.start < prev || it.end > input.len() {
+                    bad.push(format!("C03: item span {}..{}", it.start, it.end));
+                }
+                prev = it.end;
+            }
+            for b in bad {
+                viol += 1;
+                println!("BARE-VIOLATION def={} config={} partial={} input={} {}", name, config, partial, hexs, b);
+            }
+        }
+    }
+    println!("BARE-SUMMARY config={} cases={} items={} violations={}", config, cases, items, viol);
 }
